@@ -158,6 +158,70 @@ def size_event(IndxIO, tid, coords_list, common, rowcounts, wd):
     return ev
 
 
+def harvest_sizes(IndxIO, cap=1 << 18):
+    """integer constants of the current indxio source (literals and constant shifts / powers / products), the way C19
+    refines its partition: a block size the code iterates in is a boundary worth standing on"""
+    import ast, inspect, sys
+    src = inspect.getsource(sys.modules[IndxIO.__module__])
+    out = set()
+
+    def const(node):
+        try:
+            v = eval(compile(ast.Expression(node), "<c>", "eval"), {"__builtins__": {}})   # literals and operators only
+            return v if isinstance(v, int) and not isinstance(v, bool) else None
+        except Exception:  # noqa
+            return None
+    for node in ast.walk(ast.parse(src)):
+        if isinstance(node, (ast.Constant, ast.BinOp)):
+            v = const(node)
+            if v is not None and 256 <= v <= cap:
+                out.add(v)
+    return sorted(out)
+
+
+def many_event(IndxIO, tid, n, wd, seed=0):
+    """save + load of an index with n entries (n in the tens of thousands: too many to lay out byte by byte in TLC).
+    The specification judges the counts and a sample of entries (the first and last, those around every power of two,
+    random ones); the harness adds whether ALL loaded entries equal the saved ones."""
+    import numpy as np
+    rnd = random.Random(seed * 7919 + n)
+    path = os.path.join(wd, "many%d.indx" % (tid % 8))
+    keys = [(1 + (i % 5), i) for i in range(n)]
+    rows = [np.array([i % 97, 100 + (i % 13)] if i % 3 == 0 else [i % 251], dtype=np.uint32) for i in range(n)]
+    entries = dict(zip(keys, rows))
+    ev = {"tid": tid, "kind": "many", "n": n, "nloaded": 0, "saveexc": False, "loadexc": False, "allsame": False,
+          "common": 0, "lcommon": -1, "sample": []}
+    loaded = None
+    try:
+        with open(path, "wb") as f:
+            IndxIO.save(f, entries, 0, np.dtype(np.uint32))
+    except Exception as e:  # noqa
+        ev["saveexc"] = True
+        ev["excmsg"] = "%s: %s" % (type(e).__name__, e)
+    if not ev["saveexc"]:
+        try:
+            with open(path, "rb") as f:
+                loaded, lcommon, _ = IndxIO.load(f)
+            ev["nloaded"] = len(loaded)
+            ev["lcommon"] = int(lcommon)
+        except Exception as e:  # noqa
+            ev["loadexc"] = True
+            ev["excmsg"] = "%s: %s" % (type(e).__name__, e)
+    if loaded is not None:
+        pos = {0, n - 1} | {p + d for b in range(4, 20) for p in ((1 << b),) for d in (-2, -1, 0, 1)} | {rnd.randrange(n) for _ in range(24)}
+        for q in sorted(x for x in pos if 0 <= x < n):
+            lr = loaded.get(keys[q])
+            ev["sample"].append({"c": list(keys[q]), "r": rows[q].tolist(), "found": lr is not None,
+                                 "lr": [] if lr is None else [int(x) for x in np.asarray(lr).tolist()]})
+        ev["allsame"] = len(loaded) == n and all(
+            (lambda lr, r: lr is not None and len(lr) == len(r) and bool(np.all(np.asarray(lr) == r)))(loaded.get(k), r)
+            for k, r in zip(keys, rows))
+    loaded = None
+    if os.path.exists(path):
+        os.unlink(path)
+    return ev
+
+
 def gen_file_cases(tier, seed):
     """(arity, common, ents) triples: cross product of word-size classes for coordinates and common."""
     rnd = random.Random(seed)
